@@ -153,6 +153,10 @@ fn reset_executor() {
         e.ready.lock().unwrap().clear();
     })
 }
+/// install the harness executor (idempotent); other sub-commands call this too
+pub fn ensure_executor() {
+    init_executor();
+}
 fn init_executor() {
     thread_local! { static DONE: std::cell::Cell<bool> = const { std::cell::Cell::new(false) }; }
     if !DONE.get() {
